@@ -12,7 +12,7 @@ LEVEL = "fault_enumeration"
 TECHNIQUE = "fork + interposed filesystem entry points: crash-before / crash-after / torn write / EIO at EVERY operation"
 RULE = ("small random package images (3-10 entries: files, hard-link groups, symlinks, fifos, devices, nested dirs) merged by "
         "the real merge_contents over pre-existing roots in which at least one non-directory path is replaced (file over "
-        "file of other size/mode/owner, file over symlink, symlink over file, hard-link member over existing file, through "
+        "file of other size/mode/owner, file over symlink, symlink over file, file/symlink/fifo over a dangling symlink, hard-link member over existing file, through "
         "symlinked directories). A dry run numbers the N mutating operations; then for every k in 1..N and every kind "
         "(crash-before, crash-after, EIO; torn for writes) the scenario directory is rebuilt from the scenario (identical data/owner/mode/mtime), the merge is run in a "
         "forked child with the injection, and the parent judges a fresh snapshot: every pre-existing non-directory path "
@@ -388,17 +388,24 @@ def core_scenario(i):
         pre += [_e("root/f", "file", seed=2, size=100, mode=0o600, uid=250, gid=250, mt=(gen.T0 + 5) * 10**9),
                 _e("root/same", "file", seed=20, size=1200, mode=0o644, uid=250, gid=250, mt=(gen.T0 + 5) * 10**9)]
     elif i == 1:    # file over symlink, symlink over file
-        src = [_e("a", "file", seed=3, size=300, mode=0o755, uid=1000, gid=1000), _e("b", "link", target="a", uid=1, gid=1)]
-        pre += [_e("root/a", "link", target="@W@/outside/ofile"), _e("root/b", "file", seed=4, size=4096, mode=0o444)]
+        #               + file over a DANGLING symlink whose (absolute) target lies outside the root
+        src = [_e("a", "file", seed=3, size=300, mode=0o755, uid=1000, gid=1000), _e("b", "link", target="a", uid=1, gid=1),
+               _e("c", "file", seed=21, size=900, mode=0o640, uid=2, gid=1)]
+        pre += [_e("root/a", "link", target="@W@/outside/ofile"), _e("root/b", "file", seed=4, size=4096, mode=0o444),
+                _e("root/c", "link", target="@W@/outside/missing", uid=250, gid=250)]
     elif i == 2:    # hard-link group over existing files, one of them hard-linked with an unrelated neighbour
-        src = [_e("h1", "file", seed=5, size=700, mode=0o711, uid=2, gid=1, hl=1), _e("h2", "file", seed=5, size=700, mode=0o711, uid=2, gid=1, hl=1)]
+        #               + symlink over a DANGLING symlink (relative target inside the root)
+        src = [_e("h1", "file", seed=5, size=700, mode=0o711, uid=2, gid=1, hl=1), _e("h2", "file", seed=5, size=700, mode=0o711, uid=2, gid=1, hl=1),
+               _e("s", "link", target="h1", uid=1, gid=2)]
         pre += [_e("outside/peer", "file", seed=6, size=50, hl="p"), _e("root/h1", "file", seed=7, size=10),
-                _e("root/h2", "file", seed=6, size=50, hl="p")]
+                _e("root/h2", "file", seed=6, size=50, hl="p"), _e("root/s", "link", target="gone/away", uid=250, gid=250)]
     else:           # through a symlinked directory; fifo over file
+        #               + fifo over a DANGLING symlink (relative target inside the root)
         src = [_e("d", "dir", mode=0o750, uid=1, gid=1), _e("d/f", "file", seed=8, size=33000, mode=0o640, uid=1, gid=0),
-               _e("d/p", "fifo", mode=0o600, uid=2, gid=2)]
+               _e("d/p", "fifo", mode=0o600, uid=2, gid=2), _e("d/q", "fifo", mode=0o640, uid=1, gid=1)]
         pre += [_e("root/d.real", "dir", mode=0o711, uid=250, gid=250), _e("root/d", "link", target="d.real"),
-                _e("root/d/f", "file", seed=9, size=40000, mode=0o600), _e("root/d/p", "file", seed=10, size=1)]
+                _e("root/d/f", "file", seed=9, size=40000, mode=0o600), _e("root/d/p", "file", seed=10, size=1),
+                _e("root/d/q", "link", target="../nothing-here", uid=250, gid=250)]
     return {"src": src, "pre": pre, "mode": ["offset", "no-offset", "offset-slash", "offset"][i], "drop": [],
             "root_missing": False, "tags": ["core-%d" % i]}
 
